@@ -206,36 +206,165 @@ pub open spec fn vx_split_at<T>(v: Seq<T>, ps: spec_fn(T) -> bool, pp: int) -> b
     && (forall|i: int| #![trigger v[i]] 0 <= i < pp ==> ps(v[i]))
     && (forall|i: int| #![trigger v[i]] pp <= i < v.len() ==> !ps(v[i]))
 }
-/// slice::partition_point: std specifies the result only for a partitioned slice (binary search); this loop returns
-/// the first index whose element fails the predicate, which is the partition point whenever one exists — the
-/// contract promises no more than std does
+/// slice::partition_point (binary search): a deterministic function of the slice and the predicate, within 0..=len;
+/// std specifies which index only for a partitioned slice — then it is the partition point.  Assumed (std), not verified.
+pub uninterp spec fn vx_partition_point_spec<T>(v: Seq<T>, ps: spec_fn(T) -> bool) -> int;
+#[verifier::external_body]
 pub fn vx_partition_point<T, P: Fn(&T) -> bool>(v: &[T], p: P) -> (r: usize)
     requires forall|i: int| #![trigger v@[i]] 0 <= i < v@.len() ==> call_requires(p, (&v@[i],)),
     ensures
         r <= v@.len(),
+        forall|ps: spec_fn(T) -> bool| vx_pred1_agrees(p, ps) ==> r == #[trigger] vx_partition_point_spec(v@, ps),
         forall|ps: spec_fn(T) -> bool, pp: int| vx_pred1_agrees(p, ps) && #[trigger] vx_split_at(v@, ps, pp) ==> r == pp,
 {
+    v.partition_point(|x| p(x))
+}
+
+pub open spec fn vx_and3<T>(a: spec_fn(T) -> bool, b: spec_fn(T) -> bool, c: spec_fn(T) -> bool) -> spec_fn(T) -> bool {
+    |x: T| a(x) && b(x) && c(x)
+}
+/// the first n elements (all of them when there are fewer)
+pub open spec fn vx_seq_first_n<T>(s: Seq<T>, n: int) -> Seq<T> { if 0 <= n < s.len() { s.take(n) } else { s } }
+/// `v.iter().filter(a).filter(b).filter(c).take(n).filter_map(f)`
+pub open spec fn vx_top_n<T, V>(v: Seq<T>, a: spec_fn(T) -> bool, b: spec_fn(T) -> bool, c: spec_fn(T) -> bool, n: int, fs: spec_fn(T) -> Option<V>) -> Seq<V> {
+    vx_seq_filtermap(vx_seq_first_n(v.filter(vx_and3(a, b, c)), n), fs)
+}
+pub open spec fn vx_opt_view<U, V>(o: Option<U>, view: spec_fn(U) -> V) -> Option<V> { match o { Some(u) => Some(view(u)), None => None } }
+/// the closure implements fs up to the view of its results (Vec-valued results are compared by their views)
+pub open spec fn vx_fun_agrees_v<T, U, V, F: Fn(&T) -> Option<U>>(f: F, fs: spec_fn(T) -> Option<V>, view: spec_fn(U) -> V) -> bool {
+    forall|x: T, y: Option<U>| #[trigger] call_ensures(f, (&x,), y) ==> vx_opt_view(y, view) == fs(x)
+}
+pub open spec fn vx_topn_state<T, V>(v: Seq<T>, a: spec_fn(T) -> bool, b: spec_fn(T) -> bool, c: spec_fn(T) -> bool, fs: spec_fn(T) -> Option<V>) -> (int, Seq<V>) {
+    (v.filter(vx_and3(a, b, c)).len() as int, vx_seq_filtermap(v.filter(vx_and3(a, b, c)), fs))
+}
+pub proof fn vx_lemma_filter_prefix<T>(v: Seq<T>, k: int, ps: spec_fn(T) -> bool)
+    requires 0 <= k <= v.len(),
+    ensures v.filter(ps) == v.take(k).filter(ps) + v.skip(k).filter(ps),
+{
+    Seq::filter_distributes_over_add(v.take(k), v.skip(k), ps);
+    assert(v =~= v.take(k) + v.skip(k));
+}
+
+/// every result was returned by the closure for some element
+pub open spec fn vx_results_from<T, U, F: Fn(&T) -> Option<U>>(r: Seq<U>, v: Seq<T>, f: F) -> bool {
+    forall|i: int| #![trigger r[i]] 0 <= i < r.len() ==> exists|j: int| #![trigger v[j]] 0 <= j < v.len() && call_ensures(f, (&v[j],), Some(r[i]))
+}
+/// `v.iter().filter(p1).filter(p2).filter(p3).take(n).filter_map(f).collect()`; the ghost `view` says how results are
+/// compared with the reference (Vec-valued results by their sequence view)
+pub fn vx_iter_filter_filter_filter_take_filtermap_collect<T, U, V, P1: Fn(&&T) -> bool, P2: Fn(&&T) -> bool, P3: Fn(&&T) -> bool, F: Fn(&T) -> Option<U>>(
+    v: &[T], p1: P1, p2: P2, p3: P3, n: usize, f: F, Ghost(view): Ghost<spec_fn(U) -> V>) -> (r: Vec<U>)
+    requires
+        forall|i: int| #![trigger v@[i]] 0 <= i < v@.len() ==> call_requires(p1, (&&v@[i],)) && call_requires(p2, (&&v@[i],)) && call_requires(p3, (&&v@[i],)) && call_requires(f, (&v@[i],)),
+    ensures
+        forall|a: spec_fn(T) -> bool, b: spec_fn(T) -> bool, c: spec_fn(T) -> bool, fs: spec_fn(T) -> Option<V>|
+            vx_pred_agrees(p1, a) && vx_pred_agrees(p2, b) && vx_pred_agrees(p3, c) && vx_fun_agrees_v(f, fs, view)
+            ==> r@.map_values(view) == #[trigger] vx_top_n(v@, a, b, c, n as int, fs),
+        vx_results_from(r@, v@, f),
+{
+    let mut r: Vec<U> = Vec::new();
+    let mut taken: usize = 0;
     let mut k: usize = 0;
-    while k < v.len()
+    while k < v.len() && taken < n
         invariant
-            0 <= k <= v@.len(),
-            forall|i: int| #![trigger v@[i]] 0 <= i < v@.len() ==> call_requires(p, (&v@[i],)),
-            forall|i: int| #![trigger v@[i]] 0 <= i < k ==> call_ensures(p, (&v@[i],), true),
+            0 <= k <= v@.len(), taken <= n, taken <= k,
+            vx_results_from(r@, v@, f),
+            forall|i: int| #![trigger v@[i]] 0 <= i < v@.len() ==> call_requires(p1, (&&v@[i],)) && call_requires(p2, (&&v@[i],)) && call_requires(p3, (&&v@[i],)) && call_requires(f, (&v@[i],)),
+            forall|a: spec_fn(T) -> bool, b: spec_fn(T) -> bool, c: spec_fn(T) -> bool, fs: spec_fn(T) -> Option<V>|
+                vx_pred_agrees(p1, a) && vx_pred_agrees(p2, b) && vx_pred_agrees(p3, c) && vx_fun_agrees_v(f, fs, view)
+                ==> (taken as int, r@.map_values(view)) == #[trigger] vx_topn_state(v@.take(k as int), a, b, c, fs),
         decreases v@.len() - k,
     {
-        if !p(&v[k]) {
-            assert forall|ps: spec_fn(T) -> bool, pp: int| vx_pred1_agrees(p, ps) && #[trigger] vx_split_at(v@, ps, pp) implies k == pp by {
-                if pp < k { assert(call_ensures(p, (&v@[pp],), true)); }
-                if pp > k { assert(call_ensures(p, (&v@[k as int],), false)); }
+        let ghost r0 = r@;
+        let ghost taken0 = taken;
+        let x = &v[k];
+        let keep = p1(&x) && p2(&x) && p3(&x);
+        let ghost mut fy: Option<U> = None;
+        if keep {
+            taken += 1;
+            let o = f(x);
+            proof { fy = o; }
+            match o {
+                Some(y) => {
+                    r.push(y);
+                    proof {
+                        assert forall|i: int| 0 <= i < r@.len() implies exists|j: int| #![trigger v@[j]] 0 <= j < v@.len() && call_ensures(f, (&v@[j],), Some(#[trigger] r@[i])) by {
+                            if i < r0.len() { assert(r@[i] == r0[i]); } else { assert(call_ensures(f, (&v@[k as int],), Some(r@[i]))); }
+                        }
+                    }
+                }
+                None => {}
             }
-            return k;
+        }
+        proof {
+            assert forall|a: spec_fn(T) -> bool, b: spec_fn(T) -> bool, c: spec_fn(T) -> bool, fs: spec_fn(T) -> Option<V>|
+                vx_pred_agrees(p1, a) && vx_pred_agrees(p2, b) && vx_pred_agrees(p3, c) && vx_fun_agrees_v(f, fs, view)
+                implies (taken as int, r@.map_values(view)) == #[trigger] vx_topn_state(v@.take(k + 1), a, b, c, fs) by {
+                let pre = v@.take(k as int);
+                let ps = vx_and3(a, b, c);
+                assert(v@.take(k + 1) =~= pre.push(v@[k as int]));
+                vx_lemma_filter_push(pre, v@[k as int], ps);
+                assert((taken0 as int, r0.map_values(view)) == vx_topn_state(pre, a, b, c, fs));
+                assert(keep == ps(v@[k as int]));
+                if keep {
+                    let g = pre.filter(ps).push(v@[k as int]);
+                    assert(g.drop_last() =~= pre.filter(ps));
+                    assert(g.last() == v@[k as int]);
+                    assert(vx_opt_view(fy, view) == fs(v@[k as int]));
+                    match fy {
+                        Some(y) => { assert(r@.map_values(view) =~= r0.map_values(view).push(view(y))); }
+                        None => {}
+                    }
+                }
+            }
         }
         k += 1;
     }
-    assert forall|ps: spec_fn(T) -> bool, pp: int| vx_pred1_agrees(p, ps) && #[trigger] vx_split_at(v@, ps, pp) implies k == pp by {
-        if pp < k { assert(call_ensures(p, (&v@[pp],), true)); }
+    proof {
+        assert forall|a: spec_fn(T) -> bool, b: spec_fn(T) -> bool, c: spec_fn(T) -> bool, fs: spec_fn(T) -> Option<V>|
+            vx_pred_agrees(p1, a) && vx_pred_agrees(p2, b) && vx_pred_agrees(p3, c) && vx_fun_agrees_v(f, fs, view)
+            implies r@.map_values(view) == #[trigger] vx_top_n(v@, a, b, c, n as int, fs) by {
+            let ps = vx_and3(a, b, c);
+            let pre = v@.take(k as int).filter(ps);
+            assert((taken as int, r@.map_values(view)) == vx_topn_state(v@.take(k as int), a, b, c, fs));
+            vx_lemma_filter_prefix(v@, k as int, ps);
+            let whole = v@.filter(ps);
+            if k == v@.len() {
+                assert(v@.take(k as int) =~= v@);
+                assert(vx_seq_first_n(whole, n as int) =~= whole);
+            } else {
+                assert(taken == n);
+                assert(whole.take(n as int) =~= pre);
+                assert(vx_seq_first_n(whole, n as int) =~= pre);
+            }
+        }
     }
-    k
+    r
+}
+
+
+/// every element of a filtered sequence is an element of the original that satisfies the predicate
+pub proof fn vx_lemma_filter_elements<T>(s: Seq<T>, ps: spec_fn(T) -> bool)
+    ensures forall|i: int| #![trigger s.filter(ps)[i]] 0 <= i < s.filter(ps).len() ==> ps(s.filter(ps)[i]) && s.contains(s.filter(ps)[i]),
+    decreases s.len(),
+{
+    if s.len() == 0 {
+        reveal_with_fuel(Seq::filter, 1);
+    } else {
+        let t = s.drop_last();
+        vx_lemma_filter_elements(t, ps);
+        assert(s =~= t.push(s.last()));
+        vx_lemma_filter_push(t, s.last(), ps);
+        assert forall|i: int| 0 <= i < s.filter(ps).len() implies ps(#[trigger] s.filter(ps)[i]) && s.contains(s.filter(ps)[i]) by {
+            if i < t.filter(ps).len() {
+                assert(s.filter(ps)[i] == t.filter(ps)[i]);
+                let j = choose|j: int| 0 <= j < t.len() && t[j] == t.filter(ps)[i];
+                assert(s[j] == t[j]);
+            } else {
+                assert(s.filter(ps)[i] == s.last());
+                assert(s[s.len() - 1] == s.last());
+            }
+        }
+    }
 }
 
 // ---- R12: slice iterator algebra as verified loops -----------------------------------------------
